@@ -146,7 +146,7 @@ def check_matrices(ctx):
     else:
         imm, dly = names[2], names[3]
         for dic, arr in ((imm, 'self.update_array'), (dly, 'self.delay_update_array')):
-            inner = [x for x in lp.body if isinstance(x, ast.For) and k(src(x.iter)) in (dic, dic + '.keys()')]
+            inner = [x for x in ast.walk(lp) if isinstance(x, ast.For) and x is not lp and k(src(x.iter)) in (dic, dic + '.keys()')]
             if len(inner) != 1:
                 problems.append('no loop over the species of %s' % dic)
                 continue
@@ -154,14 +154,20 @@ def check_matrices(ctx):
             sp_ = src(il.target)
             stores = [x for x in ast.walk(il) if isinstance(x, (ast.Assign, ast.AugAssign))]
             want = '%s[self.species2index[%s],%s]=%s[%s]' % (arr, sp_, ridx, dic, sp_)
-            if [k(util.stmt_key(x)) for x in stores] != [want]:
+            # the entry may be named first: a local assigned once in the loop body is read through
+            wrap_ = ast.FunctionDef(name='_b', args=ast.arguments(posonlyargs=[], args=[], kwonlyargs=[], kw_defaults=[], defaults=[]), body=il.body,
+                                    decorator_list=[], type_params=[])
+            tdefs = {n_: v_ for n_, v_ in util.single_defs(wrap_).items() if v_ is not None}
+            real = [x for x in stores if not (isinstance(x, ast.Assign) and isinstance(x.targets[0], ast.Name) and x.targets[0].id in tdefs)]
+            got_ = [k('%s=%s' % (src(x.targets[0]), src(util.inline(x.value, tdefs)))) if isinstance(x, ast.Assign) else k(util.stmt_key(x)) for x in real]
+            if got_ != [want] and [k(util.stmt_key(x)) for x in stores] != [want]:
                 problems.append('fill of %s is %s, expected %s' % (arr, [util.stmt_key(x) for x in stores], want))
             if any(isinstance(x, (ast.Break, ast.Continue)) for x in ast.walk(il)):
                 problems.append('a fill loop can skip entries')
             for g in [x for x in ast.walk(il) if isinstance(x, ast.If)]:
                 if util.canon_test(g.test) not in ("''!=%s" % sp_,):
                     problems.append('entries are filled under the condition %s' % src(g.test))
-        fills = [x for x in lp.body if isinstance(x, ast.For)]
+        fills = [x for x in ast.walk(lp) if isinstance(x, ast.For) and x is not lp and k(src(x.iter)).replace('.keys()', '') in (imm, dly)]
         # each fill loop runs for every reaction: the only condition it may stand under is that its own dictionary is not empty
         for il_ in fills:
             d_ = k(src(il_.iter)).replace('.keys()', '')
@@ -322,7 +328,18 @@ def check(ctx):
         if (rule == 'R8.1-invalidate' and key.startswith('Model.') and ('reaction' in key or '_add_' in key)) or rule == 'R8.2-stale-refused':
             ctx.ob('R3.6-rebuilt-after-change', '%s/%s' % (rule, key), ok, where, what, detail)
             n_re += 1
-    ctx.floor('R3.6-rebuilt-after-change', 4)
+    # ... "whatever the order", also across a copy: the reaction list the matrices are built from is part of the state a pickle or
+    # deep copy of the model carries (C17 R17.1 / R17.2 for Model) - re-emitted here
+    from . import c17
+    for m in ('simulator', 'simulator.pxd'):
+        ctx.prog.mod(m)
+    sub = SubCtx(ctx)
+    covered = c17.check_pairs(sub)
+    c17.check_coverage(sub, covered)
+    for rule, key, ok, where, what, detail in sub.got:
+        if rule in ('R17.1-positions', 'R17.2-coverage') and key == 'Model':
+            ctx.ob('R3.6-rebuilt-after-change', 'copies/%s/%s' % (rule, key), ok, where, what, detail)
+    ctx.floor('R3.6-rebuilt-after-change', 6)
     ctx.floor('R3.1-accumulation', 5)
     ctx.floor('R3.2-tuple-positions', 4)
     ctx.floor('R3.4-derivative', 2)
